@@ -8,7 +8,7 @@ onCodeVersionChanged, logged WrongVer / blocked) are diffed.
 
 Ops: node (inject state) | fresh (restart: new instance, optionally other code) | apply | commit | append | sub |
 setver | call (a real `obj.f(x)`; the command it produces is appended to the log) | dump | compact | load.
-Dump modes: in memory, file (`fullDumpFile`, no fork), user serializer (enabled version not in the dump).
+Dump modes: in memory, file (`fullDumpFile`, no fork), user serializer (enabled version next to the internal data, repair D22).
 
 Monitors (written against the property text, evaluated on the real observations only):
   M1 nothing is applied at or after a VERSION entry the node's code does not have; no entry is applied twice
@@ -38,6 +38,8 @@ SIG_AFTER = "syncobj.applyLogEntries:applied-after-unsupported-version"
 SIG_TWICE = "syncobj.applyLogEntries:entry-applied-twice"
 SIG_BLOCKED = "syncobj.applyLogEntries:applied-with-unsupported-enabled-version"
 SIG_TABLE = "syncobj.loadDumpFile:call-not-newest-version-le-enabled"
+SIG_LOST = "syncobj.loadDumpFile:enabled-version-not-restored"
+SIG_LOST_USER = "syncobj.loadDumpFile:enabled-version-not-restored-with-user-serializer"
 SIG_TABLE_APPLY = "syncobj.doApplyCommand:call-not-newest-version-le-enabled"
 SIG_PAIR = "syncobj.applyLogEntries:old-and-new-code-run-different-method"
 SIG_GUARD = "syncobj.setCodeVersion:unsupported-or-lower-version-accepted"
@@ -60,7 +62,8 @@ class Runner(object):
         self.arg2idx = {}
         self.ran_since_reset = []        # idx of implementations run since the last node/fresh/load
         self.all_built = []
-        self.dump_bytes = None
+        self.have_dump = False
+        self.mem_dump = None
         self.tmp = None
         self.pair_trace = {}             # specname -> {idx: (obj, orig, ver)}
         self.after_load = False
@@ -195,9 +198,8 @@ class Runner(object):
             _, name = o
             old = self.b
             b = self._build(name)
-            if self.mode == "mem" and old is not None:
-                b.obj._SyncObj__serializer._Serializer__inMemorySerializedData = \
-                    old.obj._SyncObj__serializer._Serializer__inMemorySerializedData
+            if self.mode == "mem" and self.mem_dump is not None:
+                b.obj._SyncObj__serializer._Serializer__inMemorySerializedData = self.mem_dump
             self._emit({"op": "restart", "cls": L.cls_json(self.specs[name]), "keepLog": False}, "state", self._state())
         elif k == "apply":
             before = L.extract_state(b)
@@ -249,6 +251,15 @@ class Runner(object):
                 self._violation(SIG_GUARD, "setCodeVersion(%d) accepted: code has up to %d, enabled is %d"
                                 % (v, _spec_self_ver(spec), b.obj.getCodeVersion()), None)
             self._emit({"op": "setver", "v": v}, "setver", r)
+        elif k == "ver":
+            idx = b.obj._SyncObj__raftLog[-1][1] + 1
+            ent = [["ver", o[1]], idx, o[2]]
+            L.append_entries(b, [ent], self.rng)
+            self._emit({"op": "append", "entries": [ent]}, "ok", None)
+        elif k == "commit_end":
+            c = b.obj._SyncObj__raftLog[-1][1]
+            b.obj._SyncObj__raftCommitIndex = c
+            self._emit({"op": "setCommit", "v": c}, "ok", None)
         elif k == "call":
             _, obj_no, orig, arg, term = o
             cid = L.call_id(b, obj_no, orig, arg)
@@ -273,6 +284,7 @@ class Runner(object):
             if made:
                 if self.mode == "mem":
                     raw = ser._Serializer__inMemorySerializedData
+                    self.mem_dump = raw
                     data = self.ns["pickle"].loads(gzip.GzipFile(fileobj=io.BytesIO(raw)).read())
                 elif self.mode == "file":
                     data = self.ns["pickle"].loads(gzip.open(self.b.conf.fullDumpFile).read())
@@ -281,20 +293,29 @@ class Runner(object):
                 sd = data[0]
                 if sd is not None and b.consumers:
                     sd = sd[0]
-                en = None if sd is None else sd.get("_SyncObj__enabledCodeVersion")
+                if sd is None:
+                    en = data[4] if len(data) > 4 else None
+                else:
+                    en = sd.get("_SyncObj__enabledCodeVersion")
                 exp = {"enabled": en, "last": [L.dec_cmd(self.ns, data[1][0]), data[1][1], data[1][2]],
                        "prev": [L.dec_cmd(self.ns, data[2][0]), data[2][1], data[2][2]]}
                 self.have_dump = True
             self.cov["dump_made" if made else "dump_none"] += 1
-            self._emit({"op": "dump", "user": self.mode == "user"}, "dump", exp)
+            self._emit({"op": "dump"}, "dump", exp)
             return made
         elif k == "compact":
+            if not self.have_dump:
+                self.cov["skipped_no_dump"] += 1
+                return
             b.obj._SyncObj__tryLogCompaction()
             self._emit({"op": "compact"}, "state", self._state())
         elif k == "load":
+            if not self.have_dump:
+                self.cov["skipped_no_dump"] += 1
+                return
             del b.rec[:]
             b.obj._SyncObj__loadDumpFile(clearJournal=o[1])
-            assert ("loadFailed",) not in b.rec, "load failed"
+            assert ("loadFailed",) not in b.rec, "load failed: %s" % getattr(self.tok[1], "last_exc", "")[-600:]
             self.ran_since_reset = []
             self._emit({"op": "load", "clear": o[1]}, "state", self._state())
             self._monitor_table("load")
@@ -408,22 +429,20 @@ def gen_pair_script(rng, forbidden, argc, with_dump):
         else:
             plan.append(("call",))
     dump_at = rng.randrange(len(plan) + 1) if with_dump else None
-    n_entries = 1
     dumped = False
     for i, p in enumerate(plan):
-        if dump_at == i and n_entries >= 2:
+        if dump_at == i and i >= 1:
             script += [["dump"], ["compact"]] if rng.random() < 0.5 else [["dump"]]
             dumped = True
         if p[0] == "ver":
-            script.append(["append", [[["ver", p[1]], n_entries + 1, 1]]])
+            script.append(["ver", p[1], 1])
         else:
             o, nm = rng.choice(keys)
             argc[0] += 1
             script.append(["call", o, nm, argc[0], 1])
-        n_entries += 1
-        script.append(["commit", n_entries])
+        script.append(["commit_end"])
         script.append(["apply"])
-    if with_dump and not dumped and n_entries >= 2:
+    if with_dump and not dumped:
         script += [["dump"]]
         dumped = True
     return specs, script, dumped
@@ -471,7 +490,7 @@ def _finish_pair(ctx, ns, specs, script, rng, mode, seed):
                     R.op(["apply"])
             R.op(["apply"])
             if who == "N" and R.b.obj.getCodeVersion() != n_enabled:
-                R._violation(SIG_TABLE, "restarted node on the same code has enabled version %d, the node that wrote the log has %d"
+                R._violation(SIG_LOST_USER if mode == "user" else SIG_LOST, "restarted node on the same code has enabled version %d, the node that wrote the log has %d"
                              % (R.b.obj.getCodeVersion(), n_enabled), None)
         # M4: same method for every entry both codes executed
         tn, to = R.pair_trace.get("N", {}), R.pair_trace.get("O", {})
@@ -610,7 +629,7 @@ def run(ctx):
                 continue
             specs, script, dumped = g
             seed = rng.randrange(1 << 30)
-            mode = rng.choice(["mem", "mem", "file"])
+            mode = rng.choice(["mem", "mem", "file", "user"])
             R = _finish_pair(ctx, ns, specs, script, random.Random(seed), mode, seed)
             runs.append((R, specs, script, mode, seed, "pair"))
             cases += 1
